@@ -556,6 +556,70 @@ def run_loop_switch(proc, reinit, rkind, skey, exit_first):
     return bad
 
 
+def run_misc(proc, kind, skey):
+    """Small fixed scenarios on one loop:
+    reinit    - a child is registered while running, then uninitialize() + initialize() (the handler is re-installed),
+                then the child exits;
+    no-ref    - the application keeps no reference to the Subprocess after registering its callback;
+    cb-raises - two children are found by one SIGCHLD sweep and the exit callback of the first raises."""
+    import gc
+    kernel = Kernel("fresh")
+    Sub = proc.Subprocess
+    saved = (proc.os, proc.subprocess)
+    Sub._waiting.clear()
+    Sub._initialized = False
+    proc.os = OsShim(kernel)
+    proc.subprocess = SubprocessShim(kernel)
+    bad = []
+    try:
+        with World() as w:
+            calls = []
+            pids = []
+            if kind == "reinit":
+                p = Sub(["child"])
+                pids.append(p.pid)
+                p.set_exit_callback(lambda c: calls.append((0, c)))
+                w.pump()
+                Sub.uninitialize()
+                Sub.initialize()
+            elif kind == "no-ref":
+                def make():
+                    q = Sub(["child"])
+                    pids.append(q.pid)
+                    q.set_exit_callback(lambda c: calls.append((0, c)))
+                make()
+                w.pump()
+                gc.collect()
+            else:
+                ps = [Sub(["child%d" % i]) for i in range(2)]
+                pids += [q.pid for q in ps]
+
+                def boom(c):
+                    calls.append((0, c))
+                    raise RuntimeError("application bug in an exit callback")
+                ps[0].set_exit_callback(boom)
+                ps[1].set_exit_callback(lambda c: calls.append((1, c)))
+                w.pump()
+            for pid in pids:
+                kernel.exit(pid, STATUS[skey])
+            if SIGCHLD in w.loop.signal_handlers:
+                cb, args = w.loop.signal_handlers[SIGCHLD]
+                w.loop.call_soon(cb, *args)
+            else:
+                bad.append(("misc:%s:no-sigchld-handler" % kind, "no SIGCHLD handler installed on the loop"))
+            w.pump()
+            want = sorted((i, CODE[skey]) for i in range(len(pids)))
+            if sorted(calls) != want:
+                bad.append(("misc:%s:%s" % (kind, "never-reported" if len(calls) < len(want) else "wrong-report"),
+                            "%s: exit callbacks got %r, expected %r" % (kind, sorted(calls), want)))
+            Sub.uninitialize()
+    finally:
+        proc.os, proc.subprocess = saved
+        Sub._waiting.clear()
+        Sub._initialized = False
+    return bad
+
+
 def rot(seq, k, n):
     return tuple(seq[(k + j) % len(seq)] for j in range(n))
 
@@ -670,6 +734,14 @@ class C42(Check):
                             st.outcome(("loopswitch", bool(bad)))
                             for sig, msg in bad:
                                 st.violation(sig, msg, {"loopswitch": [reinit, rkind, skey, exit_first]})
+            for kind in ("reinit", "no-ref", "cb-raises"):
+                for skey in SKEYS[:3]:
+                    bad = run_misc(proc, kind, skey)
+                    st.ev()
+                    st.nontriv(("misc", kind, skey))
+                    st.outcome(("misc", kind, bool(bad)))
+                    for sig, msg in bad:
+                        st.violation(sig, msg, {"misc": [kind, skey]})
             return
         ci, prefix = part
         case = self.cases(tier)[ci]
@@ -744,6 +816,8 @@ class C42(Check):
 
     def replay(self, case):
         from tornado import process as proc
+        if "misc" in case:
+            return repr(run_misc(proc, *case["misc"]))
         if "loopswitch" in case:
             return repr(run_loop_switch(proc, *case["loopswitch"]))
         trace = []
